@@ -27,6 +27,22 @@ func strJoin(joiner, subject rel.Value) (rel.Value, error) {
 	return nil, fmt.Errorf("join: sep not a string: %v", joiner)
 }
 
+// arrayShaped reports whether every member of s is an (@, @item) tuple with a number index, which
+// is what ArrayEnumerator relies on for a set that is not an Array.
+func arrayShaped(s rel.Set) bool {
+	for e := s.Enumerator(); e.MoveNext(); {
+		t, is := e.Current().(rel.Tuple)
+		if !is || !t.HasName(rel.ArrayItemAttr) {
+			return false
+		}
+		at, has := t.Get("@")
+		if _, is := at.(rel.Number); !has || !is {
+			return false
+		}
+	}
+	return true
+}
+
 func stdSeqConcat(_ context.Context, seq rel.Value) (rel.Value, error) {
 	if set, is := seq.(rel.Set); is {
 		if !set.IsTrue() {
@@ -119,6 +135,9 @@ func stdSeqJoin(_ context.Context, joiner, subject rel.Value) (rel.Value, error)
 		switch joiner.(type) {
 		case rel.String:
 			// if joiner is rel.String
+			if !arrayShaped(subject) {
+				return nil, fmt.Errorf("//seq.join: subject not an array: %v", subject)
+			}
 			return strJoin(joiner, subject)
 		case rel.Array, rel.GenericSet, rel.Bytes:
 			return subject, nil
